@@ -128,7 +128,7 @@ Theorem lease_ends_legally c x r m m' l :
   \/ manage_kind_of x = Some MCancel.
 Proof.
   intros H L Il Hne.
-  destruct H as [E | Hr He E | route target b ttl lid m0 Ex H0 Hrd _ E | k lid Hk Hp Hl _ Hu _ _ E | k Hk Ha _ E].
+  destruct H as [E | Hr He _ E | route target b ttl lid m0 Ex H0 Hrd _ _ E | k lid Hk Hp Hl _ Hu _ _ E | k Hk Ha _ E].
   - subst. contradiction.
   - left. split; assumption.
   - destruct H0 as [H0 | [He H0]]; subst m0.
